@@ -49,6 +49,8 @@ def oracle(plan, res):
     gv, ginfo = oracles.c13_violations(res.lines)
     v += gv
     v += oracles.c13_completeness(plan["charts"]["main"], res.lines)
+    if not v:
+        v += oracles.c13_entry_account(plan["charts"]["main"], res.lines)
     info["records"] = ginfo["records"]
     info["brackets"] = ginfo["brackets"]
     info["nontrivial"] = ginfo["brackets"] >= 3 and ginfo["records"] >= 20
